@@ -475,6 +475,8 @@ func ruleTagViews(c *Ctx, r *Rep, tier string) {
 // is one of the layouts the parser accepts as non-local. A layout without a
 // zone is read back in time.Local: the instant changes for any other zone.
 // Added after a blind second-round seed (midnight printed date-only).
+var fracRE = regexp.MustCompile(`\.[09]+`)
+
 func ruleDateZone(c *Ctx, r *Rep, tier string) {
 	rule := "DATE-ZONE"
 	p := c.ByPath["sam"]
@@ -550,15 +552,35 @@ func ruleDateZone(c *Ctx, r *Rep, tier string) {
 			case !strings.Contains(layout, "-0700") && !strings.Contains(layout, "Z07") && !strings.Contains(layout, "MST"):
 				why = fmt.Sprintf("the date is printed with layout %q, which has no zone: it is read back in the local zone and the instant changes", layout)
 			default:
+				// a fractional-seconds element, however many digits, is one element
+				// (time.Parse takes any number of digits for it); with nines it is
+				// left out when the fraction is zero, so the layout without it must
+				// be accepted as well
+				normFrac := func(l string) string { return fracRE.ReplaceAllString(l, ".9") }
 				basic := strings.ReplaceAll(layout, ":", "")
-				found := false
+				plain := fracRE.ReplaceAllString(basic, "")
+				found, foundPlain, tableHasFrac := false, false, false
 				for _, e := range table {
-					if e.layout == basic && !e.local {
+					if fracRE.MatchString(e.layout) {
+						tableHasFrac = true
+					}
+					if e.local {
+						continue
+					}
+					if normFrac(e.layout) == normFrac(basic) {
 						found = true
 					}
+					if e.layout == plain {
+						foundPlain = true
+					}
 				}
-				if !found {
+				switch {
+				case !found:
 					why = fmt.Sprintf("the parser has no non-local entry for layout %q (colons removed: %q)", layout, basic)
+				case plain != basic && !foundPlain:
+					why = fmt.Sprintf("layout %q leaves the fraction out when it is zero, and the parser has no non-local entry for %q", layout, plain)
+				case tableHasFrac && !fracRE.MatchString(basic):
+					why = fmt.Sprintf("the parser accepts dates with fractional seconds, and the date is printed with layout %q, which has none: a read group date with a fraction (2014-08-13T16:02:01.5+00:00) loses it when the header is written, and ReadGroup.Time() differs after a round trip", layout)
 				}
 			}
 			r.Check(why == "", rule, key, c.Pos(call.Pos()), fmt.Sprintf("layout %q carries the zone and is accepted as non-local", layout), why)
@@ -1071,6 +1093,9 @@ func init() {
 			{Name: "TAG-VIEWS", What: "for @HD/@SQ/@RG/@PG: the field String prints under a tag is the field the line parser fills for that tag (raw text for string fields), and Get/Set/Tags mean the same field; user-defined tags kept and printed", Floor: 100, Run: ruleTagViews},
 			{Name: "REFLINE-FIELDS", What: "sam.referenceLine installs the reference built from an @SQ line in the header – appended, or in place of a held one – only after it has seen both SN and LN (added for a defect of the unchanged tree, repaired 8e75300)", Floor: 1, Run: ruleReflineFields},
 			{Name: "NAME-STORE", What: "the key of a header's name table – Reference.name, ReadGroup.name, Program.uid – is written only into an object made in the same function or together with the owner's table (on every path: owner nil, or the table entry for the new name made): who-may-write, every store in package sam (added for a defect of the unchanged tree, repaired 6ed78f3: Set(SN)/Set(ID) bypassed SetName)", Floor: 6, Run: ruleNameStore},
+			{Name: "URI-KEPT", What: "a function of package sam that parses a UR value holds the URL as url.Parse returned it – no field of it is assigned: the scheme rewrite to file lost https and turned a relative path into a host (added for a defect of the unchanged tree)", Floor: 2, Run: ruleURIKept},
+			{Name: "PTR-EQ", What: "package sam never compares two url.URL by pointer, only with nil: references parsed, built or cloned separately must be able to compare equal", Floor: 3, Run: rulePtrEq},
+			{Name: "READ-FULL", What: "Header.DecodeBinary and readRefRecords never call Read on the io.Reader they were given: a short read is not a truncated header (io.ReadFull / binary.Read)", Floor: 2, Run: ruleHeaderReadFull},
 			{Name: "COUPLED-HEADER", What: "every insertion, adoption, replacement, removal, renumbering and renaming of a header item keeps owner, id = index and the name table in step; id/owner are assigned only in reviewed functions; Remove* guards test the container they splice", Floor: 60, Run: ruleCoupledHeader},
 			{Name: "FRESH-LINKS", What: "MergeHeaders: each source gets its own link slice; each link is owned by the merged header", Floor: 3, Run: ruleFreshLinks},
 			{Name: "MERGE-KEEPS", What: "AddReference's merge of a compatible duplicate overwrites a field only with the duplicate's non-empty value; the @CO parser keeps the whole remainder of the line", Floor: 5, Run: ruleMergeKeeps},
